@@ -261,9 +261,35 @@ def judge(case):
 
 
 @st.composite
+def sibling_struct_design(draw):
+  """2-5 sibling sub-components of different classes, each with a struct type that only occurs on an internal wire
+  (module-level typedef tables are filled while the children are visited: an order taken from a set shows here)"""
+  from vf.gen import structs as S
+  from vf.ref.rtl_eval import type_width
+  R = lambda sig, inst="", sl=None, fld=(): {"inst": inst, "sig": sig, "fld": list(fld), "sl": sl}
+  k = draw(st.integers(2, 5))
+  classes = {}
+  top = {"ports": [["in1", "in", ["b", 8]]], "wires": [], "children": [], "conns": [], "blocks": [], "uu": [], "consts": []}
+  for i in range(k):
+    wa, wb = draw(st.integers(1, 4)), draw(st.integers(1, 4))
+    T = ["s", f"Priv{i}_{draw(st.integers(0, 9))}", [["a", ["b", wa]], ["b", ["b", wb]]]]
+    c = {"ports": [["in1", "in", ["b", 8]], ["out1", "out", ["b", wa]]], "wires": [["w1", T]], "children": [],
+         "conns": [[R("w1", fld=["a"]), R("in1", sl=[0, wa])], [R("w1", fld=["b"]), R("in1", sl=[wa, wa + wb])],
+                   [R("out1"), R("w1", fld=["a"])]], "blocks": [], "uu": [], "consts": []}
+    classes[f"K{i}"] = c
+    top["children"].append([f"c{i}", f"K{i}"])
+    top["ports"].append([f"o{i}", "out", ["b", wa]])
+    top["conns"].append([R("in1", inst=f"c{i}"), R("in1")])
+    top["conns"].append([R(f"o{i}"), R("out1", inst=f"c{i}")])
+  classes["Top"] = top
+  return {"classes": classes, "top": "Top"}
+
+
+@st.composite
 def cases_a(draw, n, light=False):
   designs = [draw(rtl_gen.designs(translatable=True, wide=False, max_steps=4, min_depth=draw(st.sampled_from([0, 1, 1, 2])),
                                   child_bias=2, struct_bias=draw(st.sampled_from([0, 1, 2])))) for _ in range(n)]
+  designs.append(draw(sibling_struct_design()))
   return {"kind": "A", "designs": designs, "hashseed": draw(st.integers(2, 2 ** 31 - 1)), "light": light}
 
 
